@@ -21,6 +21,7 @@
 #include <termios.h>
 #include <unistd.h>
 #include <sys/ioctl.h>
+#include <sys/prctl.h>
 #include <sys/socket.h>
 #include <sys/stat.h>
 #include <sys/syscall.h>
@@ -241,6 +242,12 @@ static void handle_line(int nf, char **f) {
             if (k->kind == SINK_FILE && !strcmp(k->path, from)) k->offset = 0;
             else if (k->kind == SINK_FILE && !strcmp(k->path, to)) k->offset = tosz;
         }
+    } else if (!strcmp(f[0], "comm") && nf >= 2) {
+        /* the caller's own command name ("@PID@" = its pid): what its children find as their parent's name in /proc/<pid>/stat */
+        vbytes b = parse_bytes(f[1]); char nm[64], pid[16]; snprintf(pid, sizeof pid, "%d", (int) getpid());
+        char *at = strstr(b.p, "@PID@");
+        if (at) snprintf(nm, sizeof nm, "%.*s%s%s", (int)(at - b.p), b.p, pid, at + 5); else snprintf(nm, sizeof nm, "%s", b.p);
+        prctl(PR_SET_NAME, nm, 0, 0, 0);
     } else if (!strcmp(f[0], "stack") && nf >= 2) { STACK_KIB = (size_t) atol(f[1]);
     } else if (!strcmp(f[0], "libcbuf") && nf >= 2) { LIBCBUF = atoi(f[1]);
     } else if (!strcmp(f[0], "call")) { do_call(nf, f);
